@@ -4,6 +4,7 @@ The MiniVHDL reference (coq/Mini) has no exit/next, wait, assert/report, signal 
 protected types ...; this stream exercises the fault catalogue on those constructs.  It is OUTSIDE the theorems: the
 templates are valid by inspection (the unplanted program is analysed too and must be free of errors) and the expected
 diagnostic of a plant is fixed by the kind of the plant:
+  base_misuse a type mark T is replaced by T'base (not the prefix of an attribute) -> IllegalAttribute on the T'base span
   undeclared  an expression position is replaced by the name `undeclared_0`       -> Unresolved covering the token
   wrong_type  ... by a literal / object of a type the position cannot have      -> TypeMismatch (conditions: also
                                                                                     NoImplicitConversion) covering it
@@ -186,6 +187,12 @@ architecture a of se{k} is
   type ptr2_t is access vec_t(<<int|0>> to <<int|7>>);
   type ptr3_t is access mat_t(open)(<<int|0>> to <<int|7>>);
   alias al1 : vec_t(<<int|0>> to <<int|1>>) is s1(0 to 1);
+  signal sb : <<tmark|integer>>;
+  constant cb : <<tmark|natural>> := 1;
+  subtype sbt is <<tmark|integer>> range 0 to 3;
+  type rb_t is record
+    f : <<tmark|bit>>;
+  end record;
 begin
   pr : process
     variable v1 : mat_t(open)(<<int|0>> to <<int|3>>);
@@ -193,6 +200,7 @@ begin
     variable v3 : integer range <<int|lo_c>> to <<int|hi_c>>;
     variable pp : vec_ptr_t;
     variable v4 : rec_arr_t(<<int|0>> to <<int|1>>)(data(<<int|0>> to <<int|3>>));
+    variable vb : <<tmark|natural>>;
   begin
     pp := new vec_t(<<int|0>> to <<int|hi_c>>);
     wait;
@@ -241,6 +249,8 @@ def expr_programs(k, r, per_kind, which=1):
     lines = user_plain.split("\n")
     def labelled(si):
         l = lines[line_col(user_plain, sites[si][1])[0]].strip()
+        if sites[si][0] == "tmark":
+            return True
         if "(open)" in l:
             # an element constraint after `(open)`: the site lies behind the (open)
             return sites[si][1] > user_plain.index("(open)", user_plain.rfind("\n", 0, sites[si][1]) + 1)
@@ -249,8 +259,14 @@ def expr_programs(k, r, per_kind, which=1):
     n = 0
     for si in chosen[:per_kind]:
         kind, a, b = sites[si]
-        for fault, repl, codes in (("undeclared", "undeclared_0", {"Unresolved"}),
-                                   ("wrong_type", WRONG[kind], WRONG_CODES.get(kind, {"TypeMismatch"}))):
+        if kind == "tmark":
+            # T'base is only allowed as the prefix of another attribute (F68): the error is expected on the T'base span
+            plants = (("undeclared", "undeclared_0", {"Unresolved"}),
+                      ("base_misuse", user_plain[a:b] + "'base", {"IllegalAttribute", "MismatchedKinds"}))
+        else:
+            plants = (("undeclared", "undeclared_0", {"Unresolved"}),
+                      ("wrong_type", WRONG[kind], WRONG_CODES.get(kind, {"TypeMismatch"})))
+        for fault, repl, codes in plants:
             text = user_plain[:a] + repl + user_plain[b:]
             line, col = line_col(text, a)
             n += 1
